@@ -1,7 +1,7 @@
 (* Properties.v — the property theorems, and nothing else.  Each is closed by [exact] of a lemma
    proved in the Proofs* files and followed by Print Assumptions. *)
 From Coq Require Import Permutation.
-From Godi Require Import Base GDfs GKahn GKahnComplete GraphSpec Conc Web Model Check ProofsGraph ProofsConc ProofsWeb ProofsRegistry ProofsRuntime ProofsClosed ProofsTerm ProofsWf ProofsSingle ProofsOutputs ProofsFresh ProofsGen ProofsFrame ProofsFrozen ProofsOnce ProofsConserve ProofsOnceWorld ProofsCloses ProofsOrder.
+From Godi Require Import Base GDfs GKahn GKahnComplete GraphSpec Conc Web Model Check ProofsGraph ProofsConc ProofsWeb ProofsRegistry ProofsRuntime ProofsClosed ProofsTerm ProofsWf ProofsSingle ProofsOutputs ProofsFresh ProofsGen ProofsFrame ProofsFrozen ProofsOnce ProofsConserve ProofsOnceWorld ProofsCloses ProofsOrder ProofsStable.
 
 (* ---------------------------------------------------------------- C01 *)
 Theorem C01_resolving_a_singleton_is_a_table_read : forall fuel rs h d,
@@ -54,6 +54,25 @@ Theorem C02_resolution_writes_its_own_scope_only : forall fuel rs h d k, h <> k 
   get_scope (rs_p (fst (resolve_d fuel rs h d))) k = get_scope (rs_p rs) k.
 Proof. exact resolution_leaves_other_scopes. Qed.
 Print Assumptions C02_resolution_writes_its_own_scope_only.
+
+(* "within one scope every resolution of a scoped registration returns one and the same instance" (one goroutine):
+   whatever is resolved in a scope - with everything that is constructed on the way - what the scope already
+   answered it keeps answering.  No acyclicity is needed: a resolution writes a cache key only when it found it
+   absent or when the key belongs to another output / interface of the registration call under construction, and
+   the outputs and interfaces of one call are cached together. *)
+Theorem C02_cached_answers_are_stable_whatever_is_resolved : forall c fuel rs h d,
+  calls_wf c -> p_descs (rs_p rs) = c -> h < length (p_scopes (rs_p rs)) -> together c (rs_p rs) h -> In d c ->
+  (forall n i, lookup_i (cache_of (rs_p rs) h) n = Some i -> lookup_i (cache_of (rs_p (fst (resolve_d fuel rs h d))) h) n = Some i) /\
+  together c (rs_p (fst (resolve_d fuel rs h d))) h.
+Proof. exact cached_answers_are_stable. Qed.
+Print Assumptions C02_cached_answers_are_stable_whatever_is_resolved.
+
+Theorem C02_scoped_instance_is_the_same_forever : forall c fuel fuel' rs h d d' i,
+  calls_wf c -> p_descs (rs_p rs) = c -> h < length (p_scopes (rs_p rs)) -> together c (rs_p rs) h -> In d c -> In d' c ->
+  ds_life d = Scoped -> lookup_i (cache_of (rs_p rs) h) (ds_ident d) = Some i ->
+  snd (resolve_d (S fuel') (fst (resolve_d fuel rs h d')) h d) = ROkV (aval_of i).
+Proof. exact scoped_instance_is_the_same_forever. Qed.
+Print Assumptions C02_scoped_instance_is_the_same_forever.
 
 (* under concurrency the statement is FALSE of the code as it is (finding F13, kept as a known finding): two
    goroutines that resolve one scoped service in one scope can both construct it.  Decided by computation on
